@@ -17,7 +17,7 @@ type C12BCase struct {
 	Cmd       int  `json:"cmd"`        // 0 BLPOP 1 BRPOP 2 BLMOVE 3 BRPOPLPUSH 4 BLMPOP
 	TimeoutUs int  `json:"timeout_us"` // microseconds; 0 = wait forever
 	InMulti   bool `json:"in_multi"`
-	Again     bool `json:"again"` // block a second time on the same connection afterwards
+	Again     bool `json:"again"`     // block a second time on the same connection afterwards
 	SelectDB  int  `json:"select_db"` // inside MULTI: a SELECT of this database is queued in front of the blocking command (0 = none)
 }
 
@@ -225,4 +225,118 @@ func c12CRun(c C12CCase, st *kit.Stats) error {
 
 func TestC12C(t *testing.T) {
 	kit.Check(t, kit.Prop[C12CCase]{ID: "C12C", Gen: c12CGen, Run: c12CRun})
+}
+
+// ---- part D: one of several waiters leaves; the others are still served -------------------------------
+//
+// 2-5 clients block on the same key in a known order. One of them - any position, often the last one
+// registered - ends its block by timeout, CLIENT UNBLOCK or CLIENT KILL. Then one element per remaining
+// waiter is pushed: every remaining waiter is served, oldest first, and the list ends empty.
+
+type C12DCase struct {
+	Waiters int `json:"waiters"`
+	Leaver  int `json:"leaver"` // index of the waiter whose block ends
+	How     int `json:"how"`    // 0 timeout 1 CLIENT UNBLOCK 2 CLIENT UNBLOCK ERROR 3 CLIENT KILL
+	Cmd     int `json:"cmd"`    // 0 BLPOP 1 BRPOP k other 2 BLMPOP
+}
+
+func c12DGen(t *rapid.T) C12DCase {
+	c := C12DCase{Waiters: rapid.IntRange(2, 5).Draw(t, "waiters"), How: rapid.IntRange(0, 3).Draw(t, "how"), Cmd: rapid.IntRange(0, 2).Draw(t, "cmd")}
+	c.Leaver = c.Waiters - 1
+	if rapid.IntRange(0, 2).Draw(t, "anypos") == 0 {
+		c.Leaver = rapid.IntRange(0, c.Waiters-1).Draw(t, "leaver")
+	}
+	return c
+}
+
+func c12DRun(c C12DCase, st *kit.Stats) error {
+	emu := kit.StartEmu("")
+	defer emu.Stop()
+	admin := emu.Dial()
+	conns := make([]*kit.Conn, c.Waiters)
+	ids := make([]string, c.Waiters)
+	for i := range conns {
+		conns[i] = emu.Dial()
+		v, _ := conns[i].Do("CLIENT", "ID")
+		ids[i] = strconv.FormatInt(v.I, 10)
+		to := "0"
+		if i == c.Leaver && c.How == 0 {
+			to = "0.06"
+		}
+		argv := [][]string{{"BLPOP", "wq", to}, {"BRPOP", "wq", "other", to}, {"BLMPOP", to, "1", "wq", "LEFT"}}[c.Cmd]
+		conns[i].Write(kit.EncodeCmd(argv...))
+		time.Sleep(4 * time.Millisecond) // registration order = connection order
+	}
+	lv := conns[c.Leaver]
+	switch c.How {
+	case 0:
+		if v, err := lv.Read(3 * time.Second); err != nil || v.K != kit.KNil {
+			return fmt.Errorf("the waiter with a 60 ms timeout replied %v %v", v, err)
+		}
+	case 1, 2:
+		a := []string{"CLIENT", "UNBLOCK", ids[c.Leaver]}
+		if c.How == 2 {
+			a = append(a, "ERROR")
+		}
+		if v, err := admin.Do(a...); err != nil || !kit.Equal(v, kit.Int(1)) {
+			return fmt.Errorf("%v replied %v %v", a, v, err)
+		}
+		if _, err := lv.Read(3 * time.Second); err != nil {
+			return fmt.Errorf("the unblocked client got no reply: %v", err)
+		}
+	default:
+		admin.Do("CLIENT", "KILL", "ID", ids[c.Leaver])
+		time.Sleep(5 * time.Millisecond)
+	}
+	// one element per remaining waiter, one push at a time: each goes to exactly one of the clients still
+	// blocked (which of them is the oldest is decided by the order in which the server saw them)
+	pending := map[int]*kit.Conn{}
+	for i, cn := range conns {
+		if i != c.Leaver {
+			pending[i] = cn
+		}
+	}
+	for n := 0; len(pending) > 0; n++ {
+		e := "e" + strconv.Itoa(n)
+		if v, err := admin.Do("RPUSH", "wq", e); err != nil || v.IsErr() {
+			return fmt.Errorf("RPUSH: %v %v", v, err)
+		}
+		served := -1
+		deadline := time.Now().Add(5 * time.Second)
+		for served < 0 && time.Now().Before(deadline) {
+			for i := 0; i < c.Waiters && served < 0; i++ {
+				cn := pending[i]
+				if cn == nil {
+					continue
+				}
+				v, err := cn.Read(20 * time.Millisecond)
+				if err == kit.ErrTimeout {
+					continue
+				}
+				if err != nil {
+					return fmt.Errorf("client %d: %v", i, err)
+				}
+				if v.K != kit.KArr || len(v.A) != 2 || (v.A[1].S != e && !(v.A[1].K == kit.KArr && len(v.A[1].A) == 1 && v.A[1].A[0].S == e)) {
+					return fmt.Errorf("client %d was served %s, expected element %q", i, v, e)
+				}
+				served = i
+			}
+		}
+		if served < 0 {
+			lr, _ := admin.Do("LRANGE", "wq", "0", "-1")
+			return fmt.Errorf("%d clients blocked on one list; client %d (in order of blocking) ended its block (%s); then %q was pushed: none of the %d clients still blocked was served within 5 s; the list holds %s",
+				c.Waiters, c.Leaver, []string{"timeout", "CLIENT UNBLOCK", "CLIENT UNBLOCK ERROR", "CLIENT KILL"}[c.How], e, len(pending), lr)
+		}
+		delete(pending, served)
+	}
+	if v, _ := admin.Do("LLEN", "wq"); !kit.Equal(v, kit.Int(0)) {
+		return fmt.Errorf("after every remaining waiter was served the list still holds %s elements", v)
+	}
+	st.Class("leaver:" + []string{"timeout", "unblock", "unblock-error", "kill"}[c.How])
+	st.NonTrivial(fmt.Sprintf("%+v", c), c)
+	return nil
+}
+
+func TestC12D(t *testing.T) {
+	kit.Check(t, kit.Prop[C12DCase]{ID: "C12D", Gen: c12DGen, Run: c12DRun})
 }
